@@ -153,6 +153,44 @@ def num_parts_exact(size, p):
     return None
 
 
+def decision(front, size, thr, chunk):
+    """C14.4/5: multipart exactly when size >= threshold, ranges / part numbers / offsets tile the object - observed on
+    the requests each front end issues (symbolic size / threshold / chunk size, <= 3 parts)"""
+    from harness import c01, c02
+    if front == 'upload-path':
+        r = c01.upload('path', 0, False, False, size, thr, chunk, 0, -1)
+    elif front == 'upload-seekable':
+        r = c01.upload('seekable', 0, False, False, size, thr, chunk, 0, -1)
+    elif front == 'upload-stream':
+        r = c01.upload_stream(False, size, thr, chunk, 0, 0, -1)
+    elif front == 'copy':
+        r = c01.copy(False, size, thr, chunk)
+    elif front == 'download':
+        if size < thr:
+            r = c02.download('seekable', 'single', 0, False, size, thr, chunk, chunk, 0, 0, 0, 0)
+        else:
+            r = c02.download('seekable', 'ranged', 0, False, size, thr, chunk, chunk, 0, 0, 0, 0)
+    elif front == 'legacy-download':
+        from harness import legacy as L
+        c = L.download(size, thr, chunk)
+        ranged = [kw for op, kw in c.s3.calls if op == 'get_object' and 'Range' in kw]
+        plain = [kw for op, kw in c.s3.calls if op == 'get_object' and 'Range' not in kw]
+        if c.outcome[0] != 'ok':
+            return 'decision: legacy download failed'
+        if size >= thr and plain:
+            return 'decision: unranged request at/above the threshold'
+        if size < thr and ranged:
+            return 'decision: ranged request below the threshold'
+        d = c.fs.files.get('/d/dest')
+        from vlib import fakes as F
+        rr = None if d is None else F.written_ok_seekable(d, size)
+        return ('decision: legacy ' + rr) if rr else None
+    else:
+        from harness import c19
+        r = c19.protocol(1, 0, size, chunk, -1, -1, -1, 0, -1, 0) if thr == chunk else '~'
+    return r
+
+
 _SZ = '0 <= size <= 5 * 1024 ** 4'
 OBLIGATIONS = [
     dict(id='C14.1', impl='adjust', params='c: int, size: int', cases=[(True,), (False,)],
@@ -175,6 +213,22 @@ OBLIGATIONS = [
          pre=['1 <= size <= 5 * 1024 ** 4', '1 <= p <= 8 * 1024 ** 3', '0 <= i'], timeout=(120, 600),
          bounds='as C14.2', encodes=['s3transfer.copies.CopySubmissionTask._get_transfer_size'],
          assumptions=['S2 (L1, L2)']),
+    dict(id='C14.4', impl='decision', params='size: int, thr: int, chunk: int',
+         cases=[('upload-path',), ('upload-seekable',), ('upload-stream',), ('copy',)],
+         pre=['0 <= size', '1 <= thr', '5 * 1024 ** 2 <= chunk <= 5 * 1024 ** 3', 'size <= 3 * chunk'],
+         splits=[['size < thr'], ['size == thr'], ['size > thr', 'size <= chunk'], ['size > thr', 'chunk < size <= 2 * chunk'],
+                 ['size > thr', '2 * chunk < size']], timeout=(170, 900),
+         bounds='<= 3 parts; size / threshold symbolic (incl. size == threshold exactly); chunk in [5 MiB, 5 GiB]',
+         encodes=['UploadSubmissionTask._submit', 'requires_multipart_upload', 'CopySubmissionTask._submit',
+                  'yield_upload_part_bodies', 'CopyPartTask ranges'], assumptions=['S1', 'S2', 'A3', 'A4']),
+    dict(id='C14.4d', impl='decision', params='size: int, thr: int, chunk: int',
+         cases=[('download',), ('legacy-download',), ('processpool',)],
+         pre=['0 <= size', '1 <= thr', '1 <= chunk <= 8192', 'size <= 3 * chunk'],
+         splits=[['size < thr'], ['size == thr'], ['size > thr', 'size <= chunk'], ['size > thr', 'size > chunk']],
+         timeout=(170, 900),
+         bounds='<= 3 parts of <= 8 KiB; size / threshold symbolic incl. equality; process pool with threshold = chunk',
+         encodes=['DownloadSubmissionTask._submit', 'S3Transfer._download_file', 'GetObjectSubmitter._submit_get_object_jobs'],
+         assumptions=['S1', 'S2']),
     dict(id='C14.6', impl='constants', params='dummy: int', pre=['0 <= dummy <= 2 ** 52'], timeout=(30, 60),
          bounds='none', encodes=['s3transfer.utils constants'], assumptions=[]),
 ]
